@@ -38,7 +38,7 @@ pub fn check(case: &Case, st: &mut Stats) -> Result<(), String> {
         },
         Case::Xml { chunks, exact_errors, .. } => {
             let sink = ModelDom::new();
-            let cfg = XmlCfg { exact_errors: *exact_errors, discard_bom: true };
+            let cfg = XmlCfg { exact_errors: *exact_errors, discard_bom: true, profile: false };
             let (dom, _left) = drive_xml(sink, &cfg, chunks, |_| {});
             dom
         },
